@@ -307,11 +307,11 @@ Section Lists.
     right. change (last (c :: b :: l) dummy) with (last (b :: l) dummy). apply IH.
   Qed.
 
-  Theorem add_refines : forall l n, Forall indoc l -> indoc n -> sorted W l = true ->
-    addNodeInDocOrder W l n = Some (sinsert W n l).
+  Theorem add_refines_v : forall grp l n, Forall indoc l -> indoc n -> sorted W l = true ->
+    addNodeInDocOrder_v grp W l n = Some (sinsert W n l).
   Proof.
-    intros l n Hl Hn Hs. destruct l as [|f l']; [reflexivity|].
-    unfold addNodeInDocOrder, addNodeInDocOrder_v. cbv beta iota. set (l := f :: l') in *.
+    intros grp l n Hl Hn Hs. destruct l as [|f l']; [reflexivity|].
+    unfold addNodeInDocOrder_v. cbv beta iota. set (l := f :: l') in *.
     assert (HlastIn : In (last l dummy) l) by apply last_in.
     destruct (lnode_eqb (last l dummy) n) eqn:Elast.
     - apply lnode_eqb_eq in Elast. f_equal. symmetry. apply sinsert_dup; [assumption | rewrite <- Elast; assumption].
@@ -338,12 +338,16 @@ Section Lists.
              assert (Hin : In (nth k l dummy) l) by (apply nth_In; assumption).
              replace n with (nth k l dummy); [assumption|].
              apply key_inj; try assumption; [|lia]. rewrite Forall_forall in Hl. apply Hl. assumption.
-      + pose proof (linearSearch_spec keeps_documents_together (executionContextPredicate W) n l 0 false Hn Hl Hs) as Hlin.
-        destruct (linearSearch keeps_documents_together (executionContextPredicate W) l n 0 false) as [ins ip].
+      + pose proof (linearSearch_spec grp (executionContextPredicate W) n l 0 false Hn Hl Hs) as Hlin.
+        destruct (linearSearch grp (executionContextPredicate W) l n 0 false) as [ins ip].
         destruct Hlin as [_ Heq].
         * intros c Hc Hcn. apply ecpred_spec; try assumption. rewrite Forall_forall in Hl. apply Hl. assumption.
         * f_equal. rewrite Nat.sub_0_r in Heq. exact Heq.
   Qed.
+
+  Theorem add_refines : forall l n, Forall indoc l -> indoc n -> sorted W l = true ->
+    addNodeInDocOrder W l n = Some (sinsert W n l).
+  Proof. intros. unfold addNodeInDocOrder. apply add_refines_v; assumption. Qed.
 
   (* ---- histories ---- *)
 
